@@ -354,11 +354,18 @@ class H2Protocol:
         self, request: Union[h2.events.RequestReceived, _SyntheticRequest]
     ) -> None:
         raw_path: Optional[bytes] = None
-        for name, value in request.headers:
-            if name == b":method":
-                method = value.decode("ascii").upper()
-            elif name == b":path":
-                raw_path = value
+        try:
+            for name, value in request.headers:
+                if name == b":method":
+                    method = value.decode("ascii").upper()
+                elif name == b":path":
+                    raw_path = value
+                    value.decode("ascii")
+        except UnicodeDecodeError:
+            # HTTP/2 does not restrict the bytes of :method or :path,
+            # the streams (and ASGI) require them to be ASCII.
+            await self._send_error_response(request.stream_id, 400)
+            return
 
         if raw_path is None:
             # A CONNECT request without a :path asks for a tunnel,
